@@ -9,11 +9,11 @@ import sys
 import numpy as np
 
 
-def residual(txt, name, env):
+def residual(txt, name, env, opts=None):
     import casadi as ca
     import pymoca.parser
     from pymoca.backends.casadi.generator import generate
-    m = generate(pymoca.parser.parse(txt), name)
+    m = generate(pymoca.parser.parse(txt), name, opts)
     f = m.dae_residual_function
     vec = lambda lst: np.concatenate([np.atleast_1d(np.array(env[v.symbol.name()], dtype=float)).reshape(-1, order="F") for v in lst]) if lst else np.zeros(0)
     args = [env.get("time", 0.0), vec(m.states), vec(m.der_states), vec(m.alg_states), vec(m.inputs), vec(m.constants), vec(m.parameters)]
@@ -113,6 +113,13 @@ def cases(tier):
                 "for-loop two indexed arrays"))
     fe2 = "model M Real a[4]; Real y[3]; equation for i in 1:3 loop y[i] = a[i + 1] - a[i]; end for; a = {0, 0, 0, 0}; end M;"
     out.append((fe2, {"a": [1.0, 4.0, 9.0, 16.0], "y": [0.0] * 3}, [-3.0, -5.0, -7.0], "for-loop shifted index"))
+    # der() of an expression over a vector state: chain rule over every element
+    dv = "model M Real x[3]; Real a; equation a = der(x[2] * x[3]); x = {0, 0, 0}; end M;"
+    out.append((dv, {"x": [2.0, 3.0, 5.0], "der(x)": [7.0, 11.0, 13.0], "a": 0.0}, [-(11.0 * 5.0 + 3.0 * 13.0)], "derivative of a product of vector elements"))
+    dp = ("function pick input Real v[3]; output Real r; algorithm r := v[2] * 2; end pick; "
+          "model M Real x[3]; Real a; equation a = der(pick(x)); x = {0, 0, 0}; end M;")
+    out.append((dp, {"x": [2.0, 3.0, 5.0], "der(x)": [7.0, 11.0, 13.0], "a": 0.0}, [-22.0], "derivative of a function of a vector (inlined)"))
+    out.append((dp, {"x": [2.0, 3.0, 5.0], "der(x)": [7.0, 11.0, 13.0], "a": 0.0}, [-22.0], "derivative of a function of a vector (not inlined)", {"inline_functions": False}))
     # derivatives are independent inputs
     out.append(("model M Real x; equation der(x) = 2 * x + 1; end M;", {"x": 3.0, "der(x)": 0.25}, [0.25 - 7.0], "derivative input"))
     return out
@@ -122,10 +129,11 @@ def main():
     payload = json.load(sys.stdin)
     tier = payload.get("tier", "quick")
     failures, n = [], 0
-    for txt, env, want, label in cases(tier):
+    for case in cases(tier):
+        txt, env, want, label = case[:4]
         n += 1
         try:
-            r = residual(txt, "M", env)
+            r = residual(txt, "M", env, case[4] if len(case) > 4 else None)
             got = r[:len(want)]
             bad = None if len(r) >= len(want) and np.allclose(got, want, rtol=1e-9, atol=1e-12) else "first rows of the residual at %s: %s" % (env, np.round(r, 9).tolist())
         except BaseException as e:  # noqa
@@ -136,7 +144,7 @@ def main():
                 break
     if payload.get("mode") == "bounded":
         print(json.dumps({"performed": True, "cases": n, "distinct_nontrivial": n, "failures": failures,
-                          "rule": "one real model per operator (+ - * / ^, relations incl. <>, not/and/or, min/max/abs, elementary functions) at several points, if-expressions and if-equations with 3 conditions evaluated where 0..3 of them hold, for-loops over stepped / descending ranges, element-wise operators, indexing, slices, a user function with an algorithm section, for-statements whose body statements depend on each other, if-statements, discarded function outputs, for-equations over several indexed arrays, der() as independent input; the first residual rows are compared with a Python reference",
+                          "rule": "one real model per operator (+ - * / ^, relations incl. <>, not/and/or, min/max/abs, elementary functions) at several points, if-expressions and if-equations with 3 conditions evaluated where 0..3 of them hold, for-loops over stepped / descending ranges, element-wise operators, indexing, slices, a user function with an algorithm section, for-statements whose body statements depend on each other, if-statements, discarded function outputs, for-equations over several indexed arrays, der() as independent input, der() of expressions over vector states with and without function inlining; the first residual rows are compared with a Python reference",
                           "bound": "%d model/point pairs" % n}))
     else:
         f = failures[0] if failures else None
